@@ -69,7 +69,7 @@ def seq_ops():
         st.tuples(st.just('update_kwargs'), st.lists(st.tuples(st.sampled_from(['a', 'b', 'zz']), v), max_size=2)),
         st.tuples(st.just('views')),
         st.tuples(st.just('contains'), k),
-        st.tuples(st.just('eq'), st.sampled_from(['same-od', 'rev-od', 'same-dict', 'shuffled-dict', 'other', 'index', 'rev-index'])),
+        st.tuples(st.just('eq'), st.sampled_from(['same-od', 'rev-od', 'same-dict', 'shuffled-dict', 'other', 'index', 'rev-index', 'dict-other-key-none', 'dict-other-key', 'dict-other-value', 'od-other-value'])),
         st.tuples(st.just('iter')),
         st.tuples(st.just('clear')),
         st.tuples(st.just('len')),
@@ -203,6 +203,14 @@ class Sequential(SubCheck):
                         other = dict(reversed(items))
                     elif kind == 'other':
                         other = OrderedDict(items[:-1] + [('zzz', 1)])
+                    elif kind == 'dict-other-key-none':
+                        other = dict(items[:-1] + [('zzz', None)])
+                    elif kind == 'dict-other-key':
+                        other = dict(items[:-1] + [('zzz', items[-1][1] if items else 1)])
+                    elif kind == 'dict-other-value':
+                        other = dict(items[:-1] + ([(items[-1][0], 'changed')] if items else []))
+                    elif kind == 'od-other-value':
+                        other = OrderedDict(items[:-1] + ([(items[-1][0], None)] if items else []))
                     else:
                         p2 = env.scratch.fresh('ix2')
                         src = items if kind == 'index' else list(reversed(items))
